@@ -67,18 +67,125 @@ def _retarget(t, base, cont, unwind_to, dest, ret_local, span, tag):
     return extra, n
 
 
+THEN = ("core::bool::then", "core::bool::then_some", "std::bool::then", "std::bool::then_some")
+
+
+def _closure_def(blocks, local):
+    """Def path of the closure the local `local` holds: it is assigned exactly once, by a closure aggregate."""
+    found = None
+    for bl in blocks:
+        for s in bl["stmts"]:
+            if s["k"] == "assign" and s["p"]["l"] == local and not s["p"]["proj"]:
+                rv = s["rv"]
+                if rv["k"] == "agg" and rv.get("ak") == "closure" and found is None:
+                    found = norm(rv["def"])
+                else:
+                    return None
+        t = bl["term"]
+        if t["k"] == "call" and t.get("dest") and t["dest"]["l"] == local and not t["dest"]["proj"]:
+            return None
+    return found
+
+
+def _opt(variant, ops):
+    return {"k": "agg", "ak": "adt", "adt": "std::option::Option", "active": None, "variant": variant, "vi": 1 if variant == "Some" else 0,
+            "discr": "1" if variant == "Some" else "0", "fields": ["0"] if variant == "Some" else [], "ops": ops}
+
+
+def _expand_then(prog, body, raw, blocks, i, t, name, chain):
+    """`c.then(|| e)` / `c.then_some(v)` spelled out as `if c { Some(e) } else { None }`, the closure's body spliced in
+    (it is built in this very function and called here or never). Returns the spliced closure's name, "" for then_some,
+    None when the call is left alone."""
+    if len(t["args"]) != 2:
+        return None
+    cond, second = t["args"]
+    span, dest, cont, unwind_to = t["span"], t["dest"], t["t"], t.get("unwind")
+    tag = name
+    n0 = len(blocks)
+    if name.endswith("then_some"):
+        # block n0: Some(v), block n0+1: None
+        blocks[i]["term"] = {"k": "switch", "discr": copy.deepcopy(cond), "arms": [["0", n0 + 1]], "otherwise": n0, "span": span, "inl_call": tag}
+        blocks.append({"cleanup": False, "stmts": [{"k": "assign", "p": copy.deepcopy(dest), "rv": _opt("Some", [copy.deepcopy(second)]), "span": span, "inl": tag}],
+                       "term": {"k": "goto", "t": cont}, "inl": tag})
+        blocks.append({"cleanup": False, "stmts": [{"k": "assign", "p": copy.deepcopy(dest), "rv": _opt("None", []), "span": span, "inl": tag}],
+                       "term": {"k": "goto", "t": cont}, "inl": tag})
+        chain[n0] = chain[n0 + 1] = chain.get(i, ())
+        return ""
+    if second.get("k") not in ("move", "copy") or second["p"]["proj"]:
+        return None
+    cdef = _closure_def(blocks, second["p"]["l"])
+    C = prog._orig_bodies.get((body.crate, cdef, -1)) if cdef else None
+    ch = chain.get(i, ())
+    if C is None or C.kind != "Closure" or C.arg_count != 1 or len(C.blocks) > MAX_BLOCKS or cdef in ch or len(ch) >= MAX_DEPTH:
+        return None
+    off = len(raw["locals"])
+    raw["locals"].extend(copy.deepcopy(C.locals))
+    short = cdef.rsplit("::", 1)[-1]
+    for e in C.raw["debug"]:
+        raw["debug"].append({"name": "%s@%s" % (e["name"], short), "p": _ren(e["p"], off)})
+    tag = cdef
+    env_ty = C.locals[1]["ty"]
+    cl_place = copy.deepcopy(second["p"])
+    if env_ty.startswith("&mut "):
+        env_rv = {"k": "ref", "mut": True, "p": cl_place}
+    elif env_ty.startswith("&"):
+        env_rv = {"k": "ref", "mut": False, "p": cl_place}
+    else:
+        env_rv = {"k": "use", "o": {"k": "move", "p": cl_place}}
+    # n0: enter (environment), n0+1: Some(result), n0+2: None, n0+3..: the closure's blocks
+    base = n0 + 3
+    blocks[i]["term"] = {"k": "switch", "discr": copy.deepcopy(cond), "arms": [["0", n0 + 2]], "otherwise": n0, "span": span, "inl_call": tag}
+    blocks.append({"cleanup": False, "stmts": [{"k": "assign", "p": {"l": off + 1, "proj": [], "ty": env_ty}, "rv": env_rv, "span": span, "inl": tag}],
+                   "term": {"k": "goto", "t": base}, "inl": tag})
+    res = {"l": off, "proj": [], "ty": C.locals[0]["ty"]}
+    blocks.append({"cleanup": False, "stmts": [{"k": "assign", "p": copy.deepcopy(dest), "rv": _opt("Some", [{"k": "move", "p": dict(res)}]), "span": span, "inl": tag}],
+                   "term": {"k": "goto", "t": cont}, "inl": tag})
+    blocks.append({"cleanup": False, "stmts": [{"k": "assign", "p": copy.deepcopy(dest), "rv": _opt("None", []), "span": span, "inl": tag}],
+                   "term": {"k": "goto", "t": cont}, "inl": tag})
+    chain[n0] = chain[n0 + 1] = chain[n0 + 2] = ch
+    for j, cb in enumerate(C.blocks):
+        nb = {"cleanup": cb.get("cleanup", False), "stmts": [_ren(s_, off) for s_ in cb["stmts"]], "tspan": cb.get("tspan"), "inl": tag}
+        for s_ in nb["stmts"]:
+            s_.setdefault("inl", tag)
+        tt = _ren(cb["term"], off)
+        if tt["k"] == "return":
+            nt = {"k": "goto", "t": n0 + 1}
+        else:
+            _extra, nt = _retarget(tt, base, n0 + 1, unwind_to, res, off, span, tag)
+        nb["term"] = nt
+        blocks.append(nb)
+        chain[base + j] = ch + (cdef,)
+    return cdef
+
+
 def inline_body(prog, body, keep):
     """A new Body with eligible local calls inlined, or `body` itself when nothing was inlined."""
     raw = None
     blocks = body.blocks
     chain = {}          # block index -> tuple of callee names this block was inlined from
     inlined = []
+    spliced_closures = []   # closures whose body now lives in this function (bool::then spelled out)
     i = 0
     while i < len(blocks):
         t = blocks[i]["term"]
         if t["k"] == "call" and isinstance(t.get("t"), int) and (t.get("resolved") or t.get("callee")):
             name = norm(t.get("resolved") or t.get("callee"))
             ch = chain.get(i, ())
+            if name in THEN and not blocks[i].get("cleanup"):
+                if raw is None:
+                    raw = dict(body.raw)
+                    raw["locals"] = list(body.raw["locals"])
+                    raw["debug"] = list(body.raw["debug"])
+                    raw["blocks"] = [dict(b, stmts=list(b["stmts"])) for b in body.raw["blocks"]]
+                    blocks = raw["blocks"]
+                    t = blocks[i]["term"]
+                got = _expand_then(prog, body, raw, blocks, i, t, name, chain)
+                if got is not None:
+                    inlined.append(got or name)
+                    if got:
+                        spliced_closures.append(got)
+                    i += 1
+                    continue
             C = prog._orig_bodies.get((body.crate, name, -1)) if t.get("ck") in (None, body.crate.split(".")[0]) or True else None
             ok = C is not None and C.kind in ("Fn", "AssocFn") and C is not prog._orig_bodies.get((body.crate, body.path, -1)) and name not in ch and \
                 len(ch) < MAX_DEPTH and len(C.blocks) <= MAX_BLOCKS and len(t["args"]) == C.arg_count and not keep(name) and \
@@ -121,6 +228,7 @@ def inline_body(prog, body, keep):
     nb.crate = body.crate
     nb.path = body.path
     nb.inlined = inlined
+    nb.spliced_closures = spliced_closures
     return nb
 
 
